@@ -350,6 +350,16 @@ class Evaluator(CallMixin, StmtMixin):
         for c in self.prog.mro(ci):
             if isinstance(c, ClassInfo) and attr in c.annotations:
                 return self.kinds_from_annotation(c.annotations[attr], c.module)
+        for c in self.prog.mro(ci):
+            if not isinstance(c, ClassInfo):
+                continue
+            for fn in c.methods.values():
+                for n in ast.walk(fn):
+                    if isinstance(n, ast.AnnAssign) and isinstance(n.target, ast.Attribute) and n.target.attr == attr \
+                            and isinstance(n.target.value, ast.Name) and n.target.value.id == "self":
+                        ks = self.kinds_from_annotation(n.annotation, c.module)
+                        if ks is not None:
+                            return ks
         return None
 
     def kinds_from_annotation(self, ann: ast.expr, mod: Module) -> Optional[FrozenSet[str]]:
@@ -606,6 +616,8 @@ class Evaluator(CallMixin, StmtMixin):
             return self.list_item(base, idx, node)
         if isinstance(base, (SObj, SNew, SOpaque)):
             return self.obj_item(base, idx, node)
+        if isinstance(base, (SExtern, TypeRef, SClass)):
+            return SExtern("typing", f"{getattr(base, 'qual', None) or getattr(base, 'name', 'type')}[...]")   # a type expression
         raise self.unmodelled(f"subscript of {type(base).__name__}", node)
 
     def list_item(self, l: SList, idx: Any, node: ast.AST) -> Any:
@@ -952,7 +964,9 @@ class Evaluator(CallMixin, StmtMixin):
             if isinstance(container, SDict):
                 if key in container.items:
                     return True
-            return self.run.decide(("in", key, ("coll", container.uid)))
+            atom = ("in", key, ("coll", container.uid))
+            self.run.atom_info[atom] = {"op": "in", "item": item, "container": container}
+            return self.run.decide(atom)
         if isinstance(container, dict):
             return self.run.decide(("in", _K(item), ("constdict", tuple(container))))
         raise self.unmodelled("membership test", node)
@@ -1167,22 +1181,54 @@ class Evaluator(CallMixin, StmtMixin):
             coll, base_kinds = self.as_collection(it, e)
             is_identity = isinstance(elt, ast.Name) and isinstance(g.target, ast.Name) and elt.id == g.target.id
             if is_identity and coll is not None:
+                from .interp import NeedsDecision
                 kinds = set()
-                for k in sorted(base_kinds):
-                    probe = SObj("probe", {k}, origin=_origin(coll))
-                    self.frame.env[g.target.id] = probe
-                    ok = True
-                    for c in g.ifs:
-                        v = self.eval(c)
-                        if isinstance(v, SBool) or (isinstance(v, Sym) and not isinstance(v, (SStr,))):
-                            raise self.unmodelled("comprehension filter depends on more than the element kind", e)
-                        if not v:
-                            ok = False
-                            break
-                    if ok:
-                        kinds.add(k)
-                l = SList("view", base=coll, kinds=kinds)
+                kind_only = True
+                self.run.path.frozen = True
+                try:
+                    for k in sorted(base_kinds):
+                        probe = SObj("probe", {k}, origin=_origin(coll))
+                        self.frame.env[g.target.id] = probe
+                        ok = True
+                        for c in g.ifs:
+                            v = self.eval(c)
+                            if isinstance(v, SBool) or (isinstance(v, Sym) and not isinstance(v, (SStr,))):
+                                raise NeedsDecision(None)
+                            if not v:
+                                ok = False
+                                break
+                        if ok:
+                            kinds.add(k)
+                except NeedsDecision:
+                    kind_only = False
+                finally:
+                    self.run.path.frozen = False
+                if kind_only:
+                    l = SList("view", base=coll, kinds=kinds)
+                    l.pytype = pytype
+                    return l
+            var = self.generic_element(it, g.target, e)
+            self.bind_target(g.target, var, e)
+            # describe value-dependent filter conditions without forking
+            cond_atoms: List[Any] = []
+            self.run.path.capture = cond_atoms
+            try:
+                for c in g.ifs:
+                    v = self.eval(c)
+                    if isinstance(v, SBool):
+                        cond_atoms.append((v.atom, "truthy"))
+            finally:
+                self.run.path.capture = None
+            if True:
+                conds = [norm(c) for c in g.ifs]
+                mark = len(self.run.effects)
+                val = self.eval(elt)
+                l = SList("map", base=it, elt=val, var=var, cond=conds)
                 l.pytype = pytype
+                l.__dict__["elt_effects"] = self.run.effects[mark:]
+                l.__dict__["cond_atoms"] = cond_atoms
+                l.__dict__["cond_nodes"] = list(g.ifs)
+                l.__dict__["identity"] = is_identity
                 return l
             var = self.generic_element(it, g.target, e)
             self.bind_target(g.target, var, e)
@@ -1237,6 +1283,8 @@ class Evaluator(CallMixin, StmtMixin):
                 base = d[1]
                 k = SObj(f"key{n}", {"STR"}, origin=_origin(base))
                 vk = None
+                if isinstance(base, SDict):
+                    vk = base.__dict__.get("value_kinds")
                 if isinstance(base, SObj):
                     vk = base.meta.get("value_kinds")
                     if vk is None and base.kinds <= frozenset({"TAGATTRDICT"}):
@@ -1280,10 +1328,20 @@ class Evaluator(CallMixin, StmtMixin):
             return
         if isinstance(target, (ast.Tuple, ast.List)):
             items = self.concrete_items(value)
+            if items is None and isinstance(value, (SObj, SOpaque)):
+                # unpacking an unknown tuple: each component is an unknown value
+                items = []
+                for i, t in enumerate(target.elts):
+                    o = SObj(f"{_nm(value)}[{i}]", ALL_KINDS, origin=_origin(value))
+                    o.meta["component_of"] = (value, i)
+                    items.append(o)
             if items is None or len(items) != len(target.elts):
                 raise self.unmodelled("tuple unpacking of symbolic value", node or target)
             for t, v in zip(target.elts, items):
-                self.bind_target(t, v, node)
+                if isinstance(t, (ast.Name, ast.Tuple, ast.List)):
+                    self.bind_target(t, v, node)
+                else:
+                    self.assign(t, v, node or target)
             return
         raise self.unmodelled("assignment target", node or target)
 
